@@ -63,7 +63,7 @@ let () =
         match split_ws line with
         | ["L"; lim; h] ->
           print_endline ("OK " ^ hx (bytes_of (remove_long_lines (n_of_string lim) (lines_of (zlist_of_hex (undash h))))))
-        | ["U"; h] -> print_endline ("OK " ^ hx (bytes_of (remove_invalid_utf8 (lines_of (zlist_of_hex (undash h))))))
+        | ["U"; h] -> print_endline ("OK " ^ hx (bytes_of (remove_invalid_utf8 (lines_of_utf8_tool (zlist_of_hex (undash h))))))
         | ["B"; h] ->
           (match remove_invalid_utf8_base64 (lines_of (zlist_of_hex (undash h))) with
            | Some out -> print_endline ("OK " ^ hx (bytes_of out))
